@@ -22,7 +22,7 @@ def generate(rng, tier):
     n_cases = 260 if tier == "quick" else 3000
     cases = [
         {"op": "split", "ty": "f32", "e": 0, "style": "witness-D5",
-         "data": [[[0], [0], [1], [1]], [[100], [100], [101], [101]]]},
+         "data": [[[0], [1], [0], [1]], [[100], [101], [100], [101]]]},
     ]
     # basic_stats directly, with NaNs at random positions
     for _ in range(40 if tier == "quick" else 400):
